@@ -51,6 +51,23 @@ int main(void)
     WITNESS_AT(c < 0 && x.a == y.a && x.b == y.b, "pair ordered by a later component");
     WITNESS_AT(hx != hy, "different hashes");
     OBS("ops=%u c=%d eqh=%d\n", got, c, hx == hy);
+#elif defined(MODE_CONT)
+    /* the value <-> hash <-> container-functor coherence behind "hash containers find every inserted key and only those" */
+    struct pval x, y; u8 bx[SL + 1], by[SL + 1]; in_p(&x, bx); in_p(&y, by);
+    int c = ref_cmp(&x, &y);
+    u64 hx = k_hash_p((void*)&x);
+#ifdef CONT_CHANGE
+    u64 hy = k_hash_p((void*)&y);
+    u64 h_first = 0, h_changed = k_hash_p_after_change((void*)&x, (void*)&y, &h_first);
+    CHECK(h_first == hx && h_changed == hy, "C16: the hash is a function of the current value (an object hashed, changed and hashed again hashes like a fresh object of the new value; so does a copy of it)");
+#else
+    u32 ce = k_container_eq((void*)&x, (void*)&y);
+    CHECK(ce == (c == 0 ? 3u : 0u), "C16: the key equality nitro::lang::unordered_set / unordered_map hand to the hash container is equality of the values (containers find every inserted key and ONLY those)");
+    CHECK(k_container_hash((void*)&x, 0) == hx && k_container_hash((void*)&x, 1) == hx, "C16: the hasher of nitro::lang::unordered_set / unordered_map is nitro::lang::hash");
+#endif
+    WITNESS_AT(c == 0, "equal pair");
+    WITNESS_AT(c != 0, "different pair");
+    OBS("c=%d\n", c);
 #elif defined(MODE_TRANS)
     struct pval x, y, z; u8 bx[SL + 1], by[SL + 1], bz[SL + 1]; in_p(&x, bx); in_p(&y, by); in_p(&z, bz);
     u32 xy = k_ops((void*)&x, (void*)&y), yz = k_ops((void*)&y, (void*)&z), xz = k_ops((void*)&x, (void*)&z);
